@@ -4,7 +4,8 @@ import t2t, corr, semrun
 OBLIGATIONS = ['Yalafi.C19_addUnknown_spec', 'Yalafi.C19_addUnknown_nodup', 'Yalafi.C19_addUnknown_math', 'Yalafi.C19_addUnknown_prefix',
                'Yalafi.C19_tex2txt_nodup', 'Yalafi.C19_tex2txt_nodup_current', 'Yalafi.C19_unknowns_complete',
                'Yalafi.C19_unknowns_complete_current', 'Yalafi.C19_example_current',
-               'Yalafi.C19_unknowns_e2e', 'Yalafi.C19_declared_never_listed', 'Yalafi.C19_maths_not_listed', 'Yalafi.C19_each_once_in_order', 'Yalafi.C19_unknowns_e2e_current', 'Yalafi.C19_e2e_example_current', 'Yalafi.C19_e2e_example_output', 'Yalafi.C19_e2e_example_eval']
+               'Yalafi.C19_unknowns_e2e', 'Yalafi.C19_declared_never_listed', 'Yalafi.C19_maths_not_listed', 'Yalafi.C19_each_once_in_order', 'Yalafi.C19_unknowns_e2e_current', 'Yalafi.C19_e2e_example_current', 'Yalafi.C19_e2e_example_output', 'Yalafi.C19_e2e_example_eval',
+               'Yalafi.C19_unkn_commutes', 'Yalafi.C19_unkn_output', 'Yalafi.C19_unkn_output_mix3', 'Yalafi.C19_unkn_output_mix3_current', 'Yalafi.C19_unkn_output_mix3_example']
 
 def judge(case, res, exp):
     if res['outcome'] != 'ok':
